@@ -4,7 +4,7 @@ configuration and loads the JSON-lines facts into a Program object.
 Every run uses a fresh cargo target directory, so cargo can never replay a
 cached result; the loader asserts that the fact files were written by this run.
 """
-import json, os, shutil, subprocess, sys, tempfile, time, hashlib
+import json, os, re, shutil, subprocess, sys, tempfile, time, hashlib
 
 VERIF = os.path.dirname(os.path.dirname(os.path.abspath(__file__)))
 REPO = os.environ.get("JV_REPO", "/repo")
@@ -73,6 +73,9 @@ def run_driver(config, out_dir):
         raise BuildFailed("cargo check failed for configuration %s" % config)
     return time.time() - t0
 
+_ALLOC_ROOT = re.compile(r'(?<![\w:])alloc::')
+
+
 class BuildFailed(Exception):
     pass
 
@@ -113,6 +116,9 @@ class Program:
             with open(p) as fh:
                 crate = None
                 for line in fh:
+                    # no_std+alloc builds name the same items through `alloc::`; rules are written against `std::`
+                    if "alloc::" in line:
+                        line = _ALLOC_ROOT.sub("std::", line)
                     r = json.loads(line)
                     k = r["k"]
                     if k == "crate":
